@@ -299,6 +299,14 @@ def mk_join(it, mode='half-outer', source_delete=True, agg='sum', target_key=Tru
     return func, usage, db
 
 
+def _numbered_from_one(it, n, tag):
+    """the row number that '#' stands for is the row's position in its resource, the first row being number 1 -- in the source
+    and in the target ALIKE (a join on ['#'] pairs the k-th rows)"""
+    from pyvc.api import check, term, IntS
+    en = getattr(it, 'last_enum', None)
+    check(it, 'rows-are-numbered-by-position-from-one[%s]' % tag, en is not None and term(n, IntS) == en.pos + 1 if en is not None else False)
+
+
 def sym_indexer(vc):
     import z3
     from pyvc.api import (SpecModule, LoopSpec, check, cover, yields_of, same_row, sym_cell, PyDict, term, StrS, Cell, SV, IntS)
@@ -343,6 +351,7 @@ def sym_indexer(vc):
 
                     def at_start(it, env, elem):
                         n, row = elem
+                        _numbered_from_one(it, n, 'source' + tag)
                         return n, row, row.snapshot()
 
                     def at_end(it, env, cap, events):
@@ -430,6 +439,7 @@ def sym_process_target(vc):
 
                 def at_start(it, env, elem):
                     n, row = elem
+                    _numbered_from_one(it, n, 'target' + tag)
                     return n, row, row.snapshot()
 
                 def at_end(it, env, cap, events):
@@ -801,6 +811,25 @@ def nat_join(h):
 
 
 
+def nat_join_row_numbers(h):
+    """bounded: a join on the row number ('#'): the k-th target row gets the values of the k-th source row, for every mode and
+    differing lengths; '{#}' inside a format-string key numbers the rows the same way on both sides"""
+    from dataflows import Flow, join
+    for ns, nt in ((3, 3), (2, 4), (4, 2), (1, 1)):
+        for mode in ('inner', 'half-outer', 'full-outer'):
+            for form in ('list', 'format'):
+                src = [{'s': 'src%d' % i} for i in range(ns)]
+                tgt = [{'t': 'tgt%d' % i} for i in range(nt)]
+                key = ['#'] if form == 'list' else 'row-{#}'
+                got = h.run(lambda: Flow([dict(r) for r in src], [dict(r) for r in tgt],
+                                         join('res_1', key, 'res_2', key, fields={'s': {}}, mode=mode)).results()[0])
+                want = [{'t': 'tgt%d' % i, 's': ('src%d' % i if i < ns else None)} for i in range(nt) if i < ns or mode != 'inner']
+                if mode == 'full-outer':
+                    want += [{'t': None, 's': 'src%d' % i} for i in range(nt, ns)]
+                ok = got[0] == 'ok' and len(got[1]) == 1 and [{'t': r.get('t'), 's': r.get('s')} for r in got[1][0]] == want
+                h.check(ok, P + 'join.py::join_aux.process_target', ('row-number keys', ns, nt, mode, form), want, got[1] if got[0] == 'ok' else got[:2])
+
+
 def nat_join_filter(h):
     """bounded: join that copies no field (fields={}) is a filter on the target: inner keeps exactly the target rows whose key occurs
     in the source, half-outer keeps all target rows, untouched, in order"""
@@ -1090,7 +1119,7 @@ ITEMS = [
     Item('field-helpers', sym_field_helpers, [], P + 'join.py::fix_fields'),
     Item('KeyCalc', sym_keycalc, [], P + 'join.py::KeyCalc.__call__', replay=replay_keycalc),
     Item('indexer', sym_indexer, [], P + 'join.py::join_aux.indexer'),
-    Item('process_target', sym_process_target, [('no-fields', nat_join_filter), ('full-outer-untyped-columns', nat_full_outer_untyped_columns)],
+    Item('process_target', sym_process_target, [('no-fields', nat_join_filter), ('full-outer-untyped-columns', nat_full_outer_untyped_columns), ('row-numbers', nat_join_row_numbers)],
          P + 'join.py::join_aux.process_target'),
     Item('new_resource_iterator', sym_new_resource_iterator, [], P + 'join.py::join_aux.new_resource_iterator'),
     Item('join.field-order', sym_join_field_order, [], P + 'join.py::join_aux.process_datapackage'),
